@@ -66,11 +66,12 @@ func (r *cutReader) Read(p []byte) (int, error) {
 type bufWC struct {
 	bytes.Buffer
 	closed bool
+	closes int
 	writes int
 }
 
 func (b *bufWC) Write(p []byte) (int, error) { b.writes++; return b.Buffer.Write(p) }
-func (b *bufWC) Close() error                { b.closed = true; return nil }
+func (b *bufWC) Close() error                { b.closed = true; b.closes++; return nil }
 
 type framingSpec struct {
 	Name    string
@@ -434,6 +435,20 @@ func c11SplitGuard() *Scenario {
 					}
 				}
 				rec(nil)
+			}
+			// closing a channel closes its writer (that is how the receiving end gets to see io.EOF), once, and writes nothing
+			for _, fs := range framings() {
+				w := &bufWC{}
+				ch := fs.F(bytes.NewReader(nil), w)
+				ch.Send([]byte(`{"a":1}`))
+				n := w.Len()
+				err := ch.Close()
+				r.Calls(1)
+				r.Case("close/"+fs.Kind, true)
+				Hit("C11.R2")
+				if err != nil || w.closes != 1 || w.Len() != n {
+					r.Fail("C11.R2", fs.Name+" Close", fmt.Sprintf("err=%v, the writer was closed %d times (want once), %d bytes written by Close", err, w.closes, w.Len()-n), "")
+				}
 			}
 			r.Sample(map[string]any{"framing": "Line", "record": "a\na"})
 		},
